@@ -91,6 +91,56 @@ def check_byteslike(col):
     col.exhaustive_done = True
 
 
+# ---- mappings fed text that is not a JSON object ------------------------------------------------------------
+MAPPING_TEXTS = ["{1: 2}", "[5, 6]", "{'a': 1}", '{"a": 1}', "{None: 1}", "{(1, 2): 3}", "[[1, 2]]", "[('a', 1)]", "{1.5: 2}", "{True: 1}",
+                 "()", "[]", "{}", "{1: 'x', 'b': 2}", "[['a', 1], ['b', 2]]", "{'a': {1: 2}}", "[{1: 2}]", "{b'k': 1}", "1, 2", "{1, 2}"]
+
+
+def check_mapping_text(col):
+    import typing
+
+    K = {"str": str, "int": int}
+    V = {"int": int, "str": str}
+    for kn, kt in K.items():
+        for vn, vt in V.items():
+            for sp, mk in (("dict", lambda a, b: dict[a, b]), ("typing.Mapping", lambda a, b: typing.Mapping[a, b]),
+                           ("Optional-dict", lambda a, b: typing.Optional[dict[a, b]]), ("list-of-dict", lambda a, b: list[dict[a, b]]),
+                           ("dict-of-dict", lambda a, b: dict[str, dict[a, b]])):
+                T = mk(kt, vt)
+                for text in MAPPING_TEXTS:
+                    for carrier in ("str", "bytes", "value"):
+                        if carrier == "value":
+                            try:
+                                x = eval(text)  # noqa: S307
+                            except Exception:
+                                continue
+                        else:
+                            x = text if carrier == "str" else text.encode()
+                        tl.clear_all()
+                        col.ev()
+                        col.nt(f"maptext|{sp}[{kn},{vn}]|{text}|{carrier}")
+                        k, r = tl.call(tl.unmarshal, T, x)
+                        if k == "exc":
+                            col.label("outcome:raised")
+                            continue
+                        col.label("outcome:returned")
+                        dicts = [r] if sp in ("dict", "typing.Mapping") else ([] if r is None else [r]) if sp == "Optional-dict" else \
+                            (list(r) if type(r) is list else [None]) if sp == "list-of-dict" else (list(r.values()) if type(r) is dict else [None])
+                        bad = None
+                        for d in dicts:
+                            if type(d) is not dict:
+                                bad = f"{d!r} is {type(d).__name__}, not dict"
+                                break
+                            bad = next((f"key {a!r} is {type(a).__name__}, not {kn}" for a in d if not isinstance(a, kt)), None) or \
+                                next((f"value {b!r} is {type(b).__name__}, not {vn}" for b in d.values() if not isinstance(b, vt)), None)
+                            if bad:
+                                break
+                        if bad:
+                            col.violation("conforms", {"mapping_text": True, "T": f"{sp}[{kn}, {vn}]", "input": text, "carrier": carrier},
+                                          f"unmarshal({sp}[{kn}, {vn}], {carrier} of {text}) returned {r!r:.100}: {bad}", bucket=f"maptext|{kn}|{bad.split(' is ')[-1][:30]}")
+    col.exhaustive_done = True
+
+
 def per_program(p):
     try:
         vs = U.values(p.spec, p.mat, max_elems=3)
@@ -109,12 +159,16 @@ def plan(tier, seed):
     # one parameterised generic met twice in one annotation (nested first / bare first)
     shards += [{"seed": seed * 1000 + 70 + k, "n": n, "depth": 3, "repeated": True} for k in range(2)]
     shards.append({"kind": "byteslike"})
+    shards.append({"kind": "mapping-text"})
     return shards
 
 
 def run_shard(shard, col):
     if shard.get("kind") == "byteslike":
         check_byteslike(col)
+        return
+    if shard.get("kind") == "mapping-text":
+        check_mapping_text(col)
         return
     progs.drive_programs(col, seed=shard["seed"], n=shard["n"],
                          spec_strategy=U.repeated_generic_specs() if shard.get("repeated") else U.root_specs(max_depth=shard["depth"], mods=3 if shard.get("adversarial") else 2, adversarial=bool(shard.get("adversarial"))), per_program=per_program)
@@ -123,6 +177,9 @@ def run_shard(shard, col):
 def replay(clause, case, col):
     if case.get("byteslike"):
         check_byteslike(col)
+        return
+    if case.get("mapping_text"):
+        check_mapping_text(col)
         return
     progs.replay_program(case, col, lambda p: check_input(p, case["input"], "replay", col))
 
